@@ -119,6 +119,37 @@ theorem newtonConst_eq (sg : Bool) {c : Nat} (hc : c ≤ 29) : newtonConst sg 64
   · exact le_of_lt (two_pow_pos' _)
   · exact lt_of_le_of_lt (pow_le_pow_right₀ (by decide) (show c + 1 ≤ 30 by omega)) (by decide)
 
+/-- **the cap range of NewtonInversion is exactly `c ≤ 29`**: the constant the code builds from the
+    `i32` literal `1 << (cap + 1)` equals `2^(c+1)` iff `c ≤ 29` (64-bit types, both signednesses).
+    For `c = 30` it is `i32::MIN`, above the shift amount wraps modulo 32. -/
+theorem newtonConst_eq_iff (sg : Bool) (c : Nat) : newtonConst sg 64 c = 2 ^ (c + 1) ↔ c ≤ 29 := by
+  constructor
+  · intro h
+    by_contra hc
+    have hc : 30 ≤ c := by omega
+    have hbig : (2:Int) ^ 31 ≤ 2 ^ (c + 1) := pow_le_pow_right₀ (by decide) (by omega)
+    unfold newtonConst i32Shl1 at h
+    split at h
+    · -- constant −2^31
+      cases sg
+      · have e : wrap false 64 (-(2 ^ 31)) = 2 ^ 64 - 2 ^ 31 := by decide
+        rw [e] at h
+        rcases Nat.lt_or_ge (c + 1) 64 with h64 | h64
+        · have : (2:Int) ^ (c + 1) ≤ 2 ^ 63 := pow_le_pow_right₀ (by decide) (by omega)
+          omega
+        · have : (2:Int) ^ 64 ≤ 2 ^ (c + 1) := pow_le_pow_right₀ (by decide) h64
+          omega
+      · have e : wrap true 64 (-(2 ^ 31)) = -(2 ^ 31) := by decide
+        rw [e] at h
+        omega
+    · rename_i h31
+      have hm : (c + 1) % 32 ≤ 30 := by omega
+      have hle : (2:Int) ^ ((c + 1) % 32) ≤ 2 ^ 30 := pow_le_pow_right₀ (by decide) hm
+      have hpos : (0:Int) < 2 ^ ((c + 1) % 32) := two_pow_pos' _
+      rw [wrap64_nonneg sg (le_of_lt hpos) (by omega)] at h
+      omega
+  · exact newtonConst_eq sg
+
 /-- hypotheses under which nothing wraps: `c ≤ 29`, `0 ≤ x`, `0 < d`, `x·d ≤ 2^c`. Then the step is
     the exact integer formula `x' = ⌊(2^(c+1) - x·d)·x / 2^c⌋`. -/
 theorem newtonStep_eq (sg : Bool) {c : Nat} {d x : Int} (hc : c ≤ 29) (hd : 0 < d) (hx : 0 ≤ x)
